@@ -1364,13 +1364,15 @@ def run_file_history(im, h, count=None):
     that is used exactly once."""
     count = count or (lambda key: None)
     ref = {}
+    im.n += 1
+    tag = im.n          # paths of this history have not been used before in this process
 
     def reference(j):
         if j not in ref:
             ref[j] = result_line(*im.run(h['scores'][j], unique=True))
         return ref[j]
     for k, (act, slot, mxl, j) in enumerate(h['steps']):
-        p = os.path.join(im.dir, 'h%d' % slot + ('.mxl' if mxl else '.xml'))
+        p = os.path.join(im.dir, 'h%d_%d' % (tag, slot) + ('.mxl' if mxl else '.xml'))
         what = {'w': 'path rewritten with another score', 'c': 'same file converted again',
                 'm': 'same file converted again after the first result was modified in place',
                 'z': 'path rewritten with a score of the same size, modification time kept'}[act]
@@ -1584,7 +1586,7 @@ def _run(chk, im, mp, corpus):
         if r:
             nfail += 1
             chk.fail(r[1], {'kind': 'file-history', 'scores': h['scores'], 'steps': h['steps'][:r[0]]})
-            chk.failures.insert(0, chk.failures.pop())      # self-contained (the whole sequence of conversions): reported first
+            chk.failures.insert(nfail - 1, chk.failures.pop())      # self-contained (the whole sequence of conversions): reported first
     # class-level tables of the parser: what they were when the run started
     now = class_tables(mp)
     for k in tables0:
